@@ -78,6 +78,14 @@ fn lock(threads: usize, iters: usize) -> String {
                 if k % 4 == 0 {
                     thread::yield_now();
                 }
+                if k % 16 == 1 {
+                    // a long critical section (a matcher run holding the pool, a stalled collector): waiters exhaust any
+                    // bounded fast path and contend in whatever slow path the lock has
+                    let t0 = std::time::Instant::now();
+                    while t0.elapsed() < std::time::Duration::from_micros(200) {
+                        std::hint::spin_loop();
+                    }
+                }
                 *g = v + 1;
                 inside.fetch_sub(1, Ordering::SeqCst);
                 drop(g);
@@ -144,9 +152,49 @@ fn overlap(n: usize, chunk: usize) -> String {
     )
 }
 
+/// M-case: the real `Matcher::run` (rayon inside) over the real pool, one run per batch: every matched item must carry the
+/// position it has in the source (`item_idx` = index in the pool), each position once, whatever order the workers finish in.
+fn matcher_runs(batches: &[usize]) -> String {
+    use skim::verif::Matcher;
+    let pool = Arc::new(defer_drop::DeferDrop::new(ItemPool::new()));
+    let factory: Rc<dyn MatchEngineFactory> = Rc::new(AndOrEngineFactory::new(
+        ExactOrFuzzyEngineFactory::builder().exact_mode(false).build(),
+    ));
+    let matcher = Matcher::builder(factory).build();
+    let mut next = 0usize;
+    let (mut matched, mut index_errors) = (0usize, 0usize);
+    let mut seen: Vec<usize> = vec![];
+    for &k in batches {
+        let items: Vec<Arc<dyn SkimItem>> = (next..next + k).map(|i| Arc::new(i.to_string()) as Arc<dyn SkimItem>).collect();
+        next += k;
+        pool.append(items);
+        let ctrl = matcher.run("", pool.clone(), |_| {});
+        let t0 = std::time::Instant::now();
+        while !ctrl.stopped() {
+            if t0.elapsed() > std::time::Duration::from_secs(20) {
+                return "error:matcher-run-did-not-stop".into();
+            }
+            thread::sleep(std::time::Duration::from_micros(200));
+        }
+        let items = ctrl.into_items();
+        for m in items.lock().iter() {
+            matched += 1;
+            let id: usize = m.item.text().parse().unwrap_or(usize::MAX);
+            if id != m.item_idx as usize {
+                index_errors += 1;
+            }
+            seen.push(m.item_idx as usize);
+        }
+    }
+    seen.sort_unstable();
+    let exact = seen.len() == next && seen.iter().enumerate().all(|(i, &x)| i == x);
+    format!("matched={} exact={} index_errors={}", matched, if exact { 1 } else { 0 }, index_errors)
+}
+
 pub fn run(case: &str) -> String {
     let parts: Vec<&str> = case.split('|').collect();
     match parts.as_slice() {
+        ["M", bs] => matcher_runs(&dec_nats(bs)),
         ["X", n, c] => overlap(n.parse().unwrap_or(0), c.parse().unwrap_or(1)),
         ["P", n, ops] => pool(n.parse().unwrap_or(0), ops),
         ["L", t, k] => lock(t.parse().unwrap_or(0), k.parse().unwrap_or(0)),
